@@ -49,12 +49,31 @@ def gen_history(g, w, n_ops, probes=True):
         obj = w.conts[c]
         return obj.get_default_namespace()
 
+    bound = {}
+
+    def check_b(step):
+        """(b): a registered prefix is never re-pointed"""
+        for c in scopes:
+            cur = {n.prefix: n.uri for n in w.conts[c].get_registered_namespaces()}
+            old = bound.setdefault(c, {})
+            for p, u in old.items():
+                if cur.get(p) != u:
+                    failures.append({"step": step, "scope": c, "kind": "b", "print": p, "uri": u, "got": cur.get(p),
+                                     "name": [p, u, ""], "op_index": len(w.ops) - 1})
+            old.update(cur)
+
     def recheck(step):
+        check_b(step)
         for (c, q) in handed:
             q2 = w.vqn(c, str(q))
             if q2 is None or q2.uri != q.uri:
-                failures.append({"step": step, "scope": c, "name": proto.enc_qn3(q), "print": str(q),
-                                 "uri": q.uri, "got": None if q2 is None else q2.uri, "op_index": len(w.ops) - 1})
+                owned = any(n.prefix == q.namespace.prefix and n.uri == q.namespace.uri
+                            for n in w.conts[c].get_registered_namespaces()) or (
+                    not q.namespace.prefix and w.conts[c].get_default_namespace() is not None
+                    and w.conts[c].get_default_namespace().uri == q.namespace.uri)
+                failures.append({"step": step, "scope": c, "kind": "c", "name": proto.enc_qn3(q), "print": str(q),
+                                 "uri": q.uri, "got": None if q2 is None else q2.uri, "op_index": len(w.ops) - 1,
+                                 "is_bundle": c != d, "owned_by_scope": owned})
 
     for i in range(n_ops):
         c = r.choice(scopes)
@@ -88,6 +107,9 @@ def gen_history(g, w, n_ops, probes=True):
                         continue
                 x = QualifiedName(Namespace(pfx, uri), loc)
                 q = w.vqn(c, x)
+                if q is None or q.uri != x.uri:
+                    failures.append({"step": i, "scope": c, "kind": "a", "print": str(x), "uri": x.uri,
+                                     "got": None if q is None else q.uri, "name": proto.enc_qn3(x), "op_index": len(w.ops) - 1})
                 if q is not None and q.namespace.prefix != pfx:
                     flags.add("dn" if q.namespace.prefix.startswith("dn") else "clash-or-rename")
             elif kind < 0.65:
@@ -122,6 +144,8 @@ def gen_history(g, w, n_ops, probes=True):
 
 def classify(w, mo, fail):
     """ask the model why the name is not read back (DESIGN §5.1: the model is the yardstick)"""
+    if fail.get("kind") in ("a", "b"):
+        return None, {"clause": fail["kind"]}
     k = fail["op_index"]
     ops = w.ops[:k + 1] + [{"op": "c03_classify", "c": fail["scope"], "q": fail["name"]}]
     out = run_model(ops)[-1]
@@ -162,7 +186,7 @@ def judge(ctx, w, failures, mo):
                                {"ops": w.ops[:i + 1], "impl": w.outs[i]}))
     seen = set()
     for f in failures:
-        key = (f["scope"], f["print"], f["uri"])
+        key = (f.get("kind"), f["scope"], f["print"], f["uri"])
         if key in seen:
             continue
         seen.add(key)
@@ -173,10 +197,14 @@ def judge(ctx, w, failures, mo):
                 sig, info = classify(w, mo, f)
             except Exception as e:  # model unavailable
                 info = {"error": repr(e)}
+                sig = model_free_sig(f)
+        else:
+            sig = model_free_sig(f)
         ctx.count("oracle-fail:" + str(sig))
-        out.append(Failure("oracle", sig,
-                           "name %s (uri %s) handed out in scope %d resolves to %s after step %d" % (
-                               f["print"], f["uri"], f["scope"], f["got"], f["step"]),
+        what = {"a": "(a) resolving QualifiedName %s (uri %s) in scope %d returned URI %s at step %d",
+                "b": "(b) registered prefix %s (uri %s) of scope %d now denotes %s after step %d",
+                "c": "(c) name %s (uri %s) handed out in scope %d resolves to %s after step %d"}[f.get("kind", "c")]
+        out.append(Failure("oracle", sig, what % (f["print"], f["uri"], f["scope"], f["got"], f["step"]),
                            {"ops": w.ops[:f["op_index"] + 1], "expect_uri": f["uri"], "model_says": info}))
     return out
 
@@ -196,31 +224,28 @@ def run(ctx):
     return fails
 
 
+def model_free_sig(f):
+    """the two known classes decided without the model (used when the model is unavailable): from the name alone
+    (well-formedness) and from the scope's own declarations (delegated = not bound by the bundle itself)"""
+    if f.get("kind") in ("a", "b"):
+        return None
+    p, u, l = f["name"]
+    wf = (":" not in p) and p != "_" and (p != "" or (":" not in l and l != "" and not l.startswith("_:")))
+    if not wf:
+        return "C03:name-not-wf"
+    if f.get("is_bundle") and not f.get("owned_by_scope"):
+        return "C03:bundle-captures-delegated-name"
+    return None
+
+
 def oracle_only(ctx):
     """failing-input search on the real code alone (used when the model or a proof is broken)"""
     g = Gen(ctx.seed * 1000003 + 17)
     fails = []
     for _ in range(ctx.n(1500, 15000)):
         w, failures = run_case(ctx, g, g.rng.randint(4, 22))
-        fs = judge(ctx, w, failures, None)
-        # without the model, classify by a code-independent rule: only bundle-scope failures whose prefix the bundle binds are the known class
-        for f in fs:
-            if f.kind == "oracle":
-                f.sig = None
-                fails.append(f)
-    return [f for f in fails if not _known_shape(f)]
-
-
-def _known_shape(f):
-    """model-free approximation of the two known classes (used only when the model is unavailable)"""
-    ops = f.replay["ops"]
-    last = ops[-1]
-    s = last.get("x", {}).get("s", "") if isinstance(last.get("x"), dict) else ""
-    scope = last.get("c")
-    doc = next((o["as"] for o in ops if o["op"] == "new_doc"), None)
-    if ":" in s.split(":", 1)[-1] and ":" not in s.split(":", 1)[0] and s.count(":") >= 1 and s.split(":", 1)[0] not in PREFIXES:
-        return True
-    return scope != doc
+        fails.extend(f for f in judge(ctx, w, failures, None) if f.kind == "oracle")
+    return fails
 
 
 def replay(ctx, case):
